@@ -39,6 +39,7 @@ type rCase struct {
 	Kind   string   `json:"kind"` // "R"
 	Check  bool     `json:"check"`
 	Comp   bool     `json:"compiled"` // router.WithRouteCompilation(true)
+	Obs    bool     `json:"obs"`      // app world: observability on (the response writer tracks status and size)
 	Wire   bool     `json:"wire"`     // serve through a real HTTP server (httptest.Server) instead of calling ServeHTTP
 	App    bool     `json:"app"`
 	Wrap   bool     `json:"wrap"`   // a timeout middleware with a 1h budget right after recovery
@@ -56,7 +57,7 @@ func buildR(c rCase) (*cx.World, error) {
 		ids[i] = b.H
 	}
 	var script []cx.Op
-	bo := cx.BuildOpts{Check: c.Check, Compiled: c.Comp, Defaults: true}
+	bo := cx.BuildOpts{Check: c.Check, Compiled: c.Comp, Obs: c.Obs && c.App, Defaults: true}
 	if c.App {
 		// app.New installs recovery itself (default middleware)
 		if c.Global > 0 {
@@ -84,7 +85,7 @@ func buildR(c rCase) (*cx.World, error) {
 }
 
 func emitR(id string, c rCase, st *hx.Stats) string {
-	l := hx.NewLine(id).Tok("R").Bool(c.Check).Bool(c.Comp).Bool(c.Wire).Bool(c.Wrap).Nat(c.Global)
+	l := hx.NewLine(id).Tok("R").Bool(c.Check).Bool(c.Comp).Bool(c.Obs && c.App).Bool(c.Wire).Bool(c.Wrap).Nat(c.Global)
 	cx.EncBeh(l, c.Chain)
 	in := l.String()
 	l.Sep()
@@ -134,6 +135,9 @@ func emitR(id string, c rCase, st *hx.Stats) string {
 		}
 		if c.Wire {
 			st.Count("R_through_real_http_server")
+		}
+		if c.Obs && c.App {
+			st.Count("R_app_observability_writer")
 		}
 		if res.Escaped >= 0 {
 			st.Count("R_panic_escaped")
@@ -226,6 +230,8 @@ func genR(r *hx.Rand, st *hx.Stats) rCase {
 	c := rCase{Kind: "R", Check: !r.Chance(1, 5), Comp: r.Chance(1, 3), App: r.Chance(2, 5)}
 	if !c.App {
 		c.Wrap = r.Chance(1, 4)
+	} else {
+		c.Obs = r.Chance(1, 2)
 	}
 	n := r.Range(1, 5)
 	c.Global = r.Intn(n) // at least one route handler
@@ -266,7 +272,8 @@ type tCase struct {
 	WaitH  bool     `json:"waitH"`
 	Custom bool     `json:"custom"` // timeout.WithHandler (signals after writing); false = the default handler
 	Pre    int      `json:"pre"`    // pass-through middleware between recovery and timeout
-	Prog   []string `json:"prog"`   // W D X aC aE aT sH aR P0..P4
+	Budget int      `json:"budget"` // timeout.WithDuration in ms (0 = one hour: only the harness-controlled context ends the budget)
+	Prog   []string `json:"prog"`   // W D X aC aE aT sH aR hold P0..P4
 }
 
 const tHid = 7
@@ -304,10 +311,12 @@ type tState struct {
 	returned   chan struct{}
 	hExit      chan struct{}
 	hFinished  atomic.Bool
+	hStarted   atomic.Bool
 	hSteps     atomic.Int32
 	retTimeout atomic.Bool
 	prog       []string
 	waitH      bool
+	hold       time.Duration
 }
 
 type tKey struct{}
@@ -317,6 +326,7 @@ func (s *tState) goH() { s.hGoOnce.Do(func() { close(s.hGo) }) }
 func tHandler(c *router.Context) {
 	s := c.Request.Context().Value(tKey{}).(*tState)
 	reqCtx := c.Request.Context()
+	s.hStarted.Store(true)
 	defer func() {
 		s.goH()
 		s.hFinished.Store(true)
@@ -338,6 +348,13 @@ func tHandler(c *router.Context) {
 			<-s.tWritten
 		case "sH":
 			s.goH()
+		case "hold":
+			// overrun by many budgets; correct code keeps ServeHTTP blocked on <-done the whole time,
+			// so `returned` can only be closed early if the middleware gave up waiting
+			select {
+			case <-s.returned:
+			case <-time.After(s.hold):
+			}
 		case "aR":
 			select {
 			case <-s.returned:
@@ -387,7 +404,11 @@ func runT(c tCase) tObs {
 	for i := 0; i < c.Pre; i++ {
 		r.Use(func(c *router.Context) { c.Next() })
 	}
-	opts := []timeout.Option{timeout.WithDuration(time.Hour), timeout.WithoutLogging()}
+	budget := time.Hour
+	if c.Budget > 0 {
+		budget = time.Duration(c.Budget) * time.Millisecond
+	}
+	opts := []timeout.Option{timeout.WithDuration(budget), timeout.WithoutLogging()}
 	if c.Custom {
 		opts = append(opts, timeout.WithHandler(timeoutHandler))
 	}
@@ -396,7 +417,7 @@ func runT(c tCase) tObs {
 	r.GET("/ok", func(c *router.Context) { _ = c.JSON(cx.StatusOf(okHid), map[string]int{"h": okHid}) })
 
 	s := &tState{tEntered: make(chan struct{}), tWritten: make(chan struct{}), hGo: make(chan struct{}), returned: make(chan struct{}),
-		hExit: make(chan struct{}), prog: c.Prog, waitH: c.WaitH}
+		hExit: make(chan struct{}), prog: c.Prog, waitH: c.WaitH, hold: 6 * budget}
 	s.parent = &ctlCtx{Context: context.WithValue(context.Background(), tKey{}, s), done: make(chan struct{})}
 	req := httptest.NewRequest(http.MethodGet, "/t", nil).WithContext(s.parent)
 	rec := httptest.NewRecorder()
@@ -421,6 +442,12 @@ func runT(c tCase) tObs {
 	}
 	o.ReleasedEarly = !s.hFinished.Load()
 	close(s.returned)
+	if !s.hStarted.Load() {
+		// a real (small) budget ran out before the handler goroutine was scheduled: Next's
+		// cancellation check skipped the handler - a timing artefact, not an observation
+		o.Discard = "budget elapsed before the handler started"
+		return o
+	}
 	select {
 	case <-s.hExit:
 	case <-time.After(20 * time.Second):
@@ -463,7 +490,7 @@ func emitT(id string, c tCase, st *hx.Stats) string {
 		}
 		return fmt.Sprintf("# %s skipped in the -race build: parent cancel races by construction (K10b)%s", id, hx.Comment(c))
 	}
-	l := hx.NewLine(id).Tok("T").Bool(c.WaitH).Bool(c.Custom).Nat(len(c.Prog))
+	l := hx.NewLine(id).Tok("T").Bool(c.WaitH).Bool(c.Custom).Nat(c.Budget).Nat(len(c.Prog))
 	for _, x := range c.Prog {
 		l.Tok(x)
 	}
@@ -520,6 +547,18 @@ func genT(r *hx.Rand, st *hx.Stats) tCase {
 	c.Prog = w(2)
 	if len(c.Prog) > 0 {
 		name = "wrote_first_"
+	}
+	if r.Chance(1, 45) {
+		// a straggler: real small budget, the handler ignores the context and overruns by 6 budgets
+		c.Custom, c.Budget = true, 40
+		c.Prog = append(c.Prog, "D", "aC", "aE", "aT", "hold")
+		if r.Chance(1, 3) {
+			c.Prog = append(c.Prog, pv())
+		}
+		if st != nil {
+			st.Count("T_shape_" + name + "straggler_overruns_6_budgets")
+		}
+		return c
 	}
 	switch k := r.Intn(20); {
 	case k < 3:
@@ -587,6 +626,8 @@ func fixedR() []rCase {
 		{Kind: "R", Check: true, Chain: []cx.Beh{{H: 1, Acts: []cx.Act{p(1)}}, {H: 2, Acts: a("W")}}},
 		// the same through the app's default middleware
 		{Kind: "R", Check: true, App: true, Chain: []cx.Beh{{H: 1, Acts: []cx.Act{p(2)}}, {H: 2, Acts: []cx.Act{p(4)}}}},
+		// size-tracking writer (app observability): panic after the first write in a middleware, two more positions behind it
+		{Kind: "R", Check: true, App: true, Obs: true, Global: 1, Chain: []cx.Beh{{H: 1, Acts: []cx.Act{{K: "W"}, p(2), {K: "N"}}}, {H: 2, Acts: []cx.Act{p(2)}}, {H: 3, Acts: a("W")}}},
 		// through a real HTTP server
 		{Kind: "R", Check: true, Wire: true, Chain: []cx.Beh{{H: 1, Acts: []cx.Act{p(4)}}, {H: 2, Acts: []cx.Act{p(1)}}}},
 		// panic after the response was started
@@ -603,6 +644,7 @@ func fixedT() []tCase {
 		{Kind: "T", Prog: []string{"X", "aC", "aR"}},                                             // K10b
 		{Kind: "T", Custom: true, Prog: []string{"D", "aC", "aE", "aT", "P0"}},                   // K10d
 		{Kind: "T", Custom: true, Prog: []string{"D", "aC", "aE", "aT"}},                         // the good case: one timeout response
+		{Kind: "T", Custom: true, Budget: 40, Prog: []string{"D", "aC", "aE", "aT", "hold"}},     // straggler: ServeHTTP must wait however long it takes
 		{Kind: "T", Prog: []string{"W"}},                                                         // handler first
 		{Kind: "T", Prog: []string{"P1"}},                                                        // re-panic to recovery
 		{Kind: "T", Custom: true, WaitH: true, Prog: []string{"D", "aC", "aE", "W", "sH", "aT"}}, // handler writes first, then the 408 body
